@@ -418,11 +418,14 @@ theorem c16_add_delete_never_panic (s : GoSlice) (e i : Int) (grow : Nat) :
     · obtain ⟨r, arg, h1, _⟩ := c16_delete_inRange s i (by omega)
       rw [h1]; rfl
 
-/-- The acceptor of `spec` mode for Add/Delete is `insertIdx`/`eraseIdx` with the index error. -/
+/-- The acceptor of `spec` mode for Add/Delete is `insertIdx`/`eraseIdx` with the index error; and ("only the
+    documented in-place functions modify their argument") what is visible through the argument of a successful Add
+    afterwards satisfies `Spec.addArgOk`: unchanged unless the result lives in the argument's own array. -/
 theorem c16_add_delete_refine_spec (s : GoSlice) (e i : Int) (grow : Nat) :
     (addAt s e i grow).map (·.1.vals) = Spec.add s.vals e i ∧
-    (deleteAt s i).map (·.1.vals) = Spec.delete s.vals i := by
-  constructor
+    (deleteAt s i).map (·.1.vals) = Spec.delete s.vals i ∧
+    (∀ r arg shares, addAt s e i grow = .ok (r, arg, shares) → Spec.addArgOk s.vals arg r.vals shares = true) := by
+  refine ⟨?_, ?_, ?_⟩
   · by_cases h : i < 0 ∨ i > (s.vals.length : Int)
     · rw [c16_add_outOfRange s e i grow h]
       have : ¬ (0 ≤ i ∧ i ≤ (s.vals.length : Int)) := by omega
@@ -437,6 +440,16 @@ theorem c16_add_delete_refine_spec (s : GoSlice) (e i : Int) (grow : Nat) :
     · obtain ⟨r, arg, h1, h2, _⟩ := c16_delete_inRange s i (by omega)
       have : (0 ≤ i ∧ i < (s.vals.length : Int)) := by omega
       rw [h1]; simp [Spec.delete, Spec.inRange, this, Outcome.map, h2]
+  · intro r arg shares hok
+    by_cases h : i < 0 ∨ i > (s.vals.length : Int)
+    · rw [c16_add_outOfRange s e i grow h] at hok; cases hok
+    · obtain ⟨r', arg', sh', h1, h2, h3, _, h5⟩ := c16_add_inRange s e i grow (by omega)
+      rw [h1] at hok
+      cases hok
+      subst h3
+      by_cases hc : s.vals.length + 1 ≤ s.cap
+      · simp [Spec.addArgOk, hc, h5, h2]
+      · simp [Spec.addArgOk, hc, h5]
 
 /-! ## 5. "never return nil where a non-nil result is promised" -/
 
